@@ -43,14 +43,14 @@ var intUniverse = []int{0, 1, 2, 3, -1, 7, 5, -8, 100, 64, 33, -100, 12, 11, 13,
 var strUniverse = []string{"", "a", "ab", "abc", "b", "ba", "A", "z", "aa", "aaa", "0", "10", "9", "é", "ab0", "abd"}
 
 type c18Stats struct {
-	histories    int
-	ops          int
-	maxHeight    int
-	removeTall   int
-	removeLast   int
+	histories     int
+	ops           int
+	maxHeight     int
+	removeTall    int
+	removeLast    int
 	overwriteTall int
-	removeOnly   int
-	clockOffsets map[int64]struct{}
+	removeOnly    int
+	clockOffsets  map[int64]struct{}
 }
 
 // parsed printed form
